@@ -44,7 +44,7 @@ def scenario(params, ch):
         if ok and "oncb" in opts and not early:
             size, retry = msgs[0]
             early.append(app_send(w_, mon, "c", payload(1, SIZES[size]), retry))
-    w = World(order=order, latency=latency, chooser=ch, monitors=[mon], dt=(1.0 / 60 if "dt60" in opts else 1.0 / 64),
+    w = World(order=order, latency=latency, chooser=ch, monitors=[mon], dt=(1.0 / 60 if "dt60" in opts else (0.02 if "dt50" in opts else 1.0 / 64)),
               server_cfg=({"setKeepAliveInterval": ka} if ka else None), client_cfg=({"setKeepAliveInterval": ka} if ka else None),
               on_connected=(on_connected if "oncb" in opts else None))
     sender = direction[0]
@@ -123,6 +123,23 @@ def scenario(params, ch):
         run_lag(80)
         if macro == "idle4":
             run_lag(256)
+        elif macro == "gap40":
+            # a burst loss of > 32 consecutive datagrams of the sender (one datagram per 1/50 s frame), the first datagram
+            # after the gap gets through (the window has just been emptied by the jump) and an OLD recorded datagram is
+            # replayed as the very next thing the receiver sees
+            data_dir = "c2s" if sender == "c" else "s2c"
+            w.start_blackout(data_dir, 42)
+            for t in range(42):
+                app_send(w, mon, sender, b"g%c" % t, "none")
+                w.tick()
+            # nothing more is queued: the next thing the sender emits is a lone keep-alive, the first datagram to get through
+            rc_ = w.server_conn(0) if sender == "c" else w.clients[0].conn
+            for t in range(14):
+                if rc_ is not None and rc_.bitfield_pkt.bits == 0:
+                    break
+                w.tick()
+            replay_point("right-after-gap")
+            w.run(6)
         elif macro == "burst":
             k = 0
             for t in range(10):
@@ -176,6 +193,8 @@ def params_list(tier):
                 for o in (("cs|rdisc",) if tier == "quick" else ("cs|rdisc", "sc|rdisc", "cs|rdisc|ka0.5")):
                     out.append((direction, msgs, "none", o, 1, 100))
                     out.append((direction, msgs, "none", o, 8, 0))
+            # burst loss of > 32 datagrams, then a replay right behind the first datagram that gets through
+            out.append((direction, msgs, "gap40", "cs|dt50", 1, 0))
             # the same with every counter a few numbers below the 16-bit wrap
             for macro in (("burst",) if tier == "quick" else ("none", "burst")):
                 out.append((direction, msgs, macro, "cs|wrap", 1, 0))
